@@ -37,7 +37,7 @@ class SimThread(object):
                  "daemon", "state", "wait_on", "timed_out", "wait_token",
                  "_baton", "exc", "exc_tb", "lines_since_prim", "steps",
                  "started_at", "ended_at", "library", "_real_started",
-                 "block_since", "result", "priority")
+                 "block_since", "result", "priority", "stall_plan")
 
     def __init__(self, sim, target=None, name=None, args=(), kwargs=None,
                  daemon=None, role=None, library=False):
@@ -66,6 +66,7 @@ class SimThread(object):
         self.block_since = None
         self.result = None
         self.priority = 0
+        self.stall_plan = sorted(sim.stall_plan.get(self.role, ())) if sim.stall_plan else None
         sim.threads.append(self)
 
     # -- public thread API (subset of threading.Thread) -------------------
@@ -226,6 +227,8 @@ class Sim(object):
         self.sched_sig_n = 0
         self.probes = {}
         self.stalled = {}        # tid -> until
+        self.stall_plan = {}     # role -> [(thread-local step, duration)]
+        self.stalls_fired = 0
         self._gap_is_skip = True
         self._line_countdown = self._draw_line_gap()
         self.listeners_on_exc = []
@@ -485,11 +488,25 @@ class Sim(object):
         self.sync_steps += 1
         self._tick()
         self.log(kind)
+        if t.stall_plan:
+            self._maybe_stall(t)
         if self.halted and t is not self.main:
             # hand control to main as soon as possible
             self._reschedule("forced")
             return
         self._reschedule("sync")
+
+    def _maybe_stall(self, t):
+        """Stalled-thread fault: the OS deschedules this thread for a while."""
+        sp = t.stall_plan
+        while sp and t.steps >= sp[0][0]:
+            at, dur = sp.pop(0)
+            self.stalled[t.tid] = max(self.stalled.get(t.tid, 0.0), self.now + dur)
+            self.stalls_fired += 1
+            self.log("stall", t.role, dur)
+        if t.tid in self.stalled and self.stalled[t.tid] > self.now and t is self.cur:
+            # let somebody else run (or time pass) until the stall is over
+            self._reschedule("forced")
 
     def block(self, waitobj, timeout=None):
         """Block the current thread until woken or timed out.
@@ -583,6 +600,8 @@ class Sim(object):
             self.now += self.quantum
             n = t.lines_since_prim + 1
             t.lines_since_prim = n
+            if t.stall_plan:
+                self._maybe_stall(t)
             if n > self.pure_line_cap:
                 t.lines_since_prim = 0
                 raise SimHang("no synchronisation point in %d line steps at %s:%d" % (
